@@ -297,12 +297,13 @@ func (check typecheck) binaryExpr(n *node) error {
 		if k != k0 || k != k1 {
 			return n.cfgErrorf("cannot use type %s as type %s in assignment", c0.typ.id(), n.typ.id())
 		}
-	case aRem:
+	case aRem, aRemAssign:
 		if zeroConst(c1) {
 			return n.cfgErrorf("invalid operation: division by zero")
 		}
-	case aQuo:
-		if zeroConst(c1) {
+	case aQuo, aQuoAssign:
+		// A floating-point or complex variable can be divided by a constant zero.
+		if zeroConst(c1) && (c0.rval.IsValid() || isInt(c0.typ.TypeOf())) {
 			return n.cfgErrorf("invalid operation: division by zero")
 		}
 		if c0.rval.IsValid() && c1.rval.IsValid() {
@@ -312,10 +313,17 @@ func (check typecheck) binaryExpr(n *node) error {
 	}
 
 	// Ensure that if values are untyped, both are converted to the same type
-	_ = check.convertUntyped(c0, c1.typ)
-	_ = check.convertUntyped(c1, c0.typ)
+	err0 := check.convertUntyped(c0, c1.typ)
+	err1 := check.convertUntyped(c1, c0.typ)
 
 	if isComparisonAction(a) {
+		// A constant must be representable in the type of the other operand.
+		if err0 != nil {
+			return err0
+		}
+		if err1 != nil {
+			return err1
+		}
 		return check.comparison(n)
 	}
 
@@ -328,8 +336,15 @@ func (check typecheck) binaryExpr(n *node) error {
 	return check.op(binaryOpPredicates, a, n, c0, t0)
 }
 
+// zeroConst returns true if n is a numeric constant, typed or not, equal to zero.
 func zeroConst(n *node) bool {
-	return n.typ.untyped && constant.Sign(n.rval.Interface().(constant.Value)) == 0
+	if !n.rval.IsValid() || n.rval.CanSet() || !isNumber(n.typ.TypeOf()) {
+		return false
+	}
+	if c, ok := n.rval.Interface().(constant.Value); ok {
+		return constant.Sign(c) == 0
+	}
+	return n.rval.IsZero()
 }
 
 func (check typecheck) index(n *node, max int) error {
@@ -341,7 +356,15 @@ func (check typecheck) index(n *node, max int) error {
 		return n.cfgErrorf("index %s must be integer", n.typ.id())
 	}
 
-	if !n.rval.IsValid() || max < 1 {
+	if !n.rval.IsValid() {
+		return nil
+	}
+
+	if vInt(n.rval) < 0 {
+		return n.cfgErrorf("index %s must not be negative", n.typ.id())
+	}
+
+	if max < 1 {
 		return nil
 	}
 
